@@ -1,3 +1,4 @@
+import ZorgVerif.Gen.Consts
 import ZorgVerif.Lemmas.Zo
 import ZorgVerif.Gen.FileLexer
 /-!
@@ -42,6 +43,11 @@ theorem C01_body_inert (pre post : List Ev) (h : 3 ≤ wordCount pre) : identity
 /-- …and three is tight: the ZID may be the second word (after a modify date) -/
 theorem C01_identity_window_tight : ∃ pre post, wordCount pre = 2 ∧ identity (pre ++ post) ≠ identity pre :=
   identity_three_words_tight
+
+/-- **Source constants**: the date formats of `shared/dates.py` are the ones `Model/Date.lean` parses (`YYMMDD` read with a
+`20` prefix, `YYYY-MM-DD`) -/
+theorem C01_source_constants : Gen.shortDateFmt = "%Y%m%d" ∧ Gen.longDateFmt = "%Y-%m-%d" ∧
+    Date.parseShort "690101".toList = some ⟨2069, 1, 1⟩ ∧ Date.parseLong "2150-03-01".toList = some ⟨2150, 3, 1⟩ := by decide +kernel
 
 /-! Non-vacuity: a concrete page through the generated lexer and the model -/
 def compileText (s : String) : Except Err PageResult :=
